@@ -1951,6 +1951,7 @@ class SQLParser:
             select_statement = cls._parse_select_statement(scanner, None, sql_type)
             return node.ASTCreateTableAsStatement(
                 table_name=table_name,
+                if_not_exists=if_not_exists,
                 select_statement=select_statement
             )
 
